@@ -359,9 +359,26 @@ def write_evidence(pid, tier, seed, level, result, wall, violations, known_hits,
     cov['events_skipped_inexact'] = sum(1 for n in result['notes'] if n.get('inexact'))
     if extra:
         cov.update(extra)
+    # keep a summary of the last run of the other tier (this file is rewritten on every run)
+    path = os.path.join(EVID, pid + os.environ.get('VERIF_EVIDENCE_SUFFIX', '') + '.json')
+    try:
+        old = json.load(open(path))
+        oc = old.get('coverage', {})
+        summ = {'tier': old.get('tier'), 'wall_s': old.get('wall_s'), 'states': oc.get('states'), 'transitions': oc.get('transitions'),
+                'traces_validated_against_impl': oc.get('traces_validated_against_impl'), 'evaluations': oc.get('evaluations'),
+                'distinct_nontrivial': oc.get('distinct_nontrivial'), 'violations': len(old.get('violations', []) or []),
+                'stages': [{'stage': st.get('stage'), 'scripts': st.get('scripts'), 'verdicts': st.get('verdicts')} for st in oc.get('stages', [])],
+                'finished': oc.get('finished')}
+        if old.get('tier') != tier:
+            cov['last_run_of_other_tier'] = summ
+        elif 'last_run_of_other_tier' in oc:
+            cov['last_run_of_other_tier'] = oc['last_run_of_other_tier']
+    except Exception:
+        pass
+    cov['finished'] = time.strftime('%Y-%m-%dT%H:%M:%SZ', time.gmtime())
     ev = {'property_id': pid, 'tier': tier, 'seed': seed, 'level': level, 'coverage': cov,
           'assumptions': assumptions, 'wall_s': round(wall, 1), 'violations': violations}
-    with open(os.path.join(EVID, pid + os.environ.get('VERIF_EVIDENCE_SUFFIX', '') + '.json'), 'w') as f:
+    with open(path, 'w') as f:
         json.dump(ev, f, indent=1)
 
 
